@@ -29,7 +29,7 @@ KNOBS = {'stagger': [0.0, 1.0, 4.0, 30.0, 60.0], 'n_min': 1, 'n_max': 4,
          'behaviours': ['normal'] * 5 + ['slow_stop', 'slow_stop', 'stubborn', 'immortal'],
          'actions': ['stop_application', 'stop_application', 'restart_application', 'stop_process', 'start_application',
                      'restart_process', 'kill_process', 'wait'],
-         'n_actions': [0, 1, 2, 3, 4], 'closing_p': 0.6, 'fence': 'false'}
+         'n_actions': [0, 1, 2, 3, 4], 'closing_p': 0.6, 'second_closing_p': 0.3, 'fence': 'false'}
 
 
 # an additional family: processes that never stop (or only when killed after a long stopwaitsecs) are asked to stop, an
@@ -40,7 +40,8 @@ STUCK_KNOBS = {'stagger': [0.0, 1.0], 'n_min': 2, 'n_max': 4,
                         'per_instance_diff': 0.0, 'managed_p': 1.0, 'autorestart': ('false',)},
                'behaviours': ['immortal', 'immortal', 'stubborn', 'normal'],
                'actions': ['stop_application', 'stop_application', 'restart', 'stop_process'],
-               'n_actions': [2, 3, 4], 'gaps': [2.0, 5.0, 12.0], 'closing_p': 1.0, 'fence': 'false', 'early_p': 0.0,
+               'n_actions': [2, 3, 4], 'gaps': [2.0, 5.0, 12.0], 'closing_p': 1.0, 'second_closing_p': 0.3,
+               'fence': 'false', 'early_p': 0.0,
                'settle_ticks': 30, 'closing_ticks': 300}
 STUCK_COUNT = {'quick': 240, 'thorough': 4000}
 
